@@ -102,8 +102,8 @@ def typedRegrowthBound (rows : List (List Cell)) (names : List String) (schema :
     schema are indexed strings), any include / exclude lists of known names and *every* `chunk_row_size` of C05's `Regime`
     (well-formed table, `chunk_row_size > 0`, the window `2·crs·ncols` holds the header line and the longest record), with the
     budgets the function computes from the `_field_size`s and every regrowth they force — provided every cell of every
-    selected column is acceptable to its importer (`cellOK`; always true for string, categorical columns, relaxed bool
-    columns …): the call returns `.ok`; `rows` (the length of `j_valid_from`) is the number of records; the destination frame
+    selected column is acceptable to its importer (`cellOK`; always true for string and leaky categorical columns, relaxed
+    bool columns …; for a categorical column without free text: the cell equals a category key, fix NC06d): the call returns `.ok`; `rows` (the length of `j_valid_from`) is the number of records; the destination frame
     holds exactly the selected columns in file order; and every destination field — main column and all its companions
     (`_valid`, `_freetext` indices and values, `_day`, `_set`) — is C06's specification `typedSpec` applied to the WHOLE
     column of cell texts that C05's specification `column (values rows) c` yields. Nothing depends on `chunk_row_size`, on
@@ -200,8 +200,11 @@ theorem typed_companions_aligned (k : FieldKind) (cells : List Csv.Bytes) (imp :
       rw [hl, fixed_flat_length]
       exact Nat.mul_div_cancel _ (by omega)
   | categorical cats =>
-    simp only [typedSpec, Option.some.injEq] at h
-    subst h
+    simp only [typedSpec, Option.map_eq_some_iff] at h
+    obtain ⟨codes, hc, rfl⟩ := h
+    have hall := (catColumn_isSome_iff cats cells).mp (by rw [hc]; rfl)
+    rw [catColumn_eq_map cats cells hall] at hc
+    cases hc
     exact ⟨by simp [Imp.lengths], fun _ h => by cases h⟩
   | leaky cats =>
     simp only [typedSpec, Option.some.injEq] at h
@@ -273,7 +276,8 @@ theorem read_csv_typed_raises_partial (ncols : Nat) (kinds : Nat → FieldKind) 
     * bool (strict: empty or unparseable; allow_empty: unparseable) → the `Exception` of `raiseNumericException`;
     * int / float: an integer outside the dtype → `OverflowError` (every validation mode); an empty or unparseable text (when
       the validation mode rejects it: `validation_mode_table`) → `ValueError`;
-    * datetime / date → `ValueError`. -/
+    * datetime / date → `ValueError`;
+    * categorical without free text, a cell that equals no category key → `ValueError` (fix NC06d). -/
 theorem typed_reject_error_class (k : FieldKind) (x : Csv.Bytes) :
     (rejErr k x = none ↔ cellOK k x) ∧
     ∀ e, rejErr k x = some e →
@@ -282,7 +286,8 @@ theorem typed_reject_error_class (k : FieldKind) (x : Csv.Bytes) :
         (classOf p.parse (rstripNul x) = .outOfRange → e = .other "OverflowError") ∧
         (KindOK k → classOf p.parse (rstripNul x) = .empty ∨ classOf p.parse (rstripNul x) = .garbage →
           e = .valueError "cannot be converted")) ∧
-      (k = .datetime ∨ k = .date → ∃ m, e = .valueError m) :=
+      (k = .datetime ∨ k = .date → ∃ m, e = .valueError m) ∧
+      (∀ cats, k = .categorical cats → e = .valueError "is not one of the categories") :=
   ⟨rejErr_none_iff k x, fun e h => rejErr_class k x e h⟩
 
 /-- **read_file_typed_raises** (driver level). `read_file_using_fast_csv_reader` on a file of C05's `Regime`, any starting
@@ -604,5 +609,33 @@ example : rejErr (.bool .strict false) [] = some (.other "Exception") := by deci
 example : (match readCsv (render (tyHeader :: tyRows)) ["a", "b", "c"] [("b", .bool .strict false)] none none 3 12 with
            | .error e => decide (e = .other "Exception")
            | .ok _ => false) = true := by decide +kernel
+
+/-- a categorical column WITHOUT free text (fix NC06d): the cell `maybe` of the second record equals no key of `tyCats`; it is
+    not acceptable, the hypotheses of `read_csv_typed_raises` hold, and the public entry point raises the `ValueError` of
+    `CategoricalImporter.import_part` (the model is not evaluated by `decide` here: `get_byte_map`'s `mergeSort` does not
+    reduce in the kernel; `#eval` gives `valueError "is not one of the categories"` for `chunk_row_size` 3 and 40); as found it
+    stored `0`, the code of `no` -/
+example : rejErr (.categorical tyCats) [109, 97, 121, 98, 101] = some (.valueError "is not one of the categories") ∧
+    cellOK (.categorical tyCats) [110, 111] ∧ ¬ cellOK (.categorical tyCats) [] := by decide
+example : ∃ (e : Err) (d a : Nat) (k : String) (x : Csv.Bytes),
+    readCsv (render (tyHeader :: tyRows)) ["a", "b", "c"] [("a", .categorical tyCats)] none none 3 12 = .error e ∧
+    k ∈ fieldsToUse ["a", "b", "c"] none none ∧
+    rejErr (kindOf [("a", .categorical tyCats)] k) x = some e ∧
+    Reported tyRows ((fieldsToUse ["a", "b", "c"] none none).map (fun k => ["a", "b", "c"].idxOf k))
+      (fun c => cellOK (kindAt ["a", "b", "c"] [("a", .categorical tyCats)] c)) d a (["a", "b", "c"].idxOf k) x := by
+  have hk : ∀ k ∈ ["a", "b", "c"], KindOK (kindOf [("a", .categorical tyCats)] k) := by
+    intro k hk
+    simp only [List.mem_cons, List.not_mem_nil, or_false] at hk
+    rcases hk with rfl | rfl | rfl
+    · show (tyCats.map (·.1)).Nodup
+      decide
+    · trivial
+    · trivial
+  exact read_csv_typed_raises (ncols := 3) ["a", "b", "c"] _ none none rfl (fun _ h => by cases h) (fun _ h => by cases h) hk
+    tyRegime ⟨"a", by decide, [109, 97, 121, 98, 101], by decide, by decide⟩ 12 (by decide +kernel)
+/-- … and with `maybe` listed as a category the same file is imported: `typedSpec` is `some`, the codes are the keys' values -/
+example : typedSpec (.categorical (([109, 97, 121, 98, 101], 2) :: tyCats)) (column (values tyRows) 0) =
+    some { kind := .categorical (([109, 97, 121, 98, 101], 2) :: tyCats), codes := [1, 2, 0] } := by decide +kernel
+example : typedSpec (.categorical tyCats) (column (values tyRows) 0) = none := by decide +kernel
 
 end Exetera.Props.C05
